@@ -4,8 +4,8 @@ From Verif Require Import Base.GoPrim.
 (* strings.Split(s, c) for a one-byte separator: always at least one piece *)
 Fixpoint split_aux (c : Z) (cur : gostring) (s : gostring) : list gostring :=
   match s with
-  | [] => [rev cur]
-  | x :: t => if x =? c then rev cur :: split_aux c [] t else split_aux c (x :: cur) t
+  | [] => [frev cur]
+  | x :: t => if x =? c then frev cur :: split_aux c [] t else split_aux c (x :: cur) t
   end.
 
 Definition split_on (c : Z) (s : gostring) : list gostring := split_aux c [] s.
@@ -60,7 +60,7 @@ Proof. revert cur; induction s as [|x t IH]; intros cur; simpl; [discriminate|].
 
 Lemma split_aux_join c : forall s cur, join_with c (split_aux c cur s) = rev cur ++ s.
 Proof.
-  induction s as [|x t IH]; intros cur; simpl.
+  induction s as [|x t IH]; intros cur; simpl; rewrite ?frev_rev.
   - rewrite app_nil_r. reflexivity.
   - destruct (x =? c) eqn:E.
     + apply Z.eqb_eq in E. subst x.
@@ -78,7 +78,7 @@ Proof. unfold split_on. rewrite split_aux_join. reflexivity. Qed.
 Lemma split_aux_no_sep c : forall s cur, Forall (fun x => x <> c) cur ->
   Forall (fun l => Forall (fun x => x <> c) l) (split_aux c cur s).
 Proof.
-  induction s as [|x t IH]; intros cur Hcur; simpl.
+  induction s as [|x t IH]; intros cur Hcur; simpl; rewrite ?frev_rev.
   - constructor; [|constructor]. apply Forall_rev. exact Hcur.
   - destruct (x =? c) eqn:E.
     + constructor; [apply Forall_rev; exact Hcur|]. apply IH. constructor.
